@@ -71,7 +71,6 @@ package fshelper
 //@   requires sub.fs != nil
 //@   at_call Filespace.*,NewSubFS requires Confined(sub.basePath, $arg)
 
-
 // --- C03/C06: the read-only mask forwards reads unchanged and never calls a mutator ---
 //@ func ROFilespace.Copy [C03 C06 C07]
 //@   requires ro.fs != nil
@@ -160,7 +159,6 @@ package fshelper
 //@   at_call Filespace.Lstat requires $0 == $p0
 //@   at_call Filespace.*,!Filespace.Lstat requires false
 //@   only_calls ro.fs : ReadDir IsExist IsFile IsDir ReadFile Reader Lstat Filespace
-
 
 //@ type SubFS
 //@   field basePath immutable
